@@ -101,6 +101,7 @@ def gen_plan(rng: random.Random, tier: str) -> dict:
                     x["later"] = rng.choice([0.05, 0.15, 0.3])
             steps.append({"at": t_close, "op": "close", "s": s})
             steps.sort(key=lambda x: x["at"])
+            cfg["tail"] = 1.4      # two parked phases of up to 0.3 s each plus four queue crossings must fit
     return {"property": PROPERTY, "cfg": cfg, "steps": steps}
 
 
